@@ -74,6 +74,10 @@ def signature(req, text):
     shape = shape_of(req)
     if shape == "empty-source":
         kind = "hang" if tag == "hang" else "sigfpe" if tag == "sigfpe" else "oob-read" if tag.endswith("read") else tag
+        if tag.startswith("process-died") and "AddressSanitizer" in text and not tag.endswith("write"):
+            kind = "oob-read"
+        if tag.startswith("canary") or tag.endswith("write"):
+            kind = "oob-write"
         if "SIGFPE" in text or "FPE" in text:
             kind = "sigfpe"
         return f"{op}|empty-source|{kind}"
@@ -114,7 +118,7 @@ def run_streams(ctx, exe, configs, nper, nstreams, env_extra=None, label="guard"
             # the same request stream for every configuration: stream k of seed s
             seed = ctx.seed * 1000 + k
             r = subprocess.run([str(exe), "gen", str(seed), str(nper), str(ops), str(impl), str(orc)], stdout=subprocess.DEVNULL, stderr=subprocess.PIPE, env=env, text=True)
-        return job, ops, impl, orc, r.returncode, r.stderr[-3000:]
+        return job, ops, impl, orc, r.returncode, r.stderr[:3000] + r.stderr[-3000:]
 
     with ThreadPoolExecutor(max_workers=workers) as ex:
         results = list(ex.map(one, jobs))
